@@ -17,7 +17,10 @@ def scenario(kind, ending, idx, fault, k, init_state=None, stateful=False, m=0):
     w = None
     try:
         L = None
-        if fault == 3:
+        if fault == 4:
+            # a slow child: it sleeps 3 model seconds at its k-th statement while the parent asks it to terminate
+            L = wsim.Landing(W, kind, k, action="delay", delay=3.0)
+        elif fault == 3:
             # the parent-side forwarding thread of a remote worker is slow at its k-th statement
             L = wsim.Landing(W, kind, k, action="delay", select=wsim.frontend_actor, delay=3.0)
         elif fault:
@@ -45,7 +48,7 @@ def scenario(kind, ending, idx, fault, k, init_state=None, stateful=False, m=0):
             except WorkerClosedError:
                 rec["enqueued"] = 0
         try:
-            if fault == 1:
+            if fault in (1, 4):
                 rec["landed"] = L.wait()
                 rec["label"] = L.label
                 rec["marks_at_landing"] = list(T.MARKS)
